@@ -43,7 +43,7 @@ class Chooser:
         return sum(1 for _, c, _ in self.trace if c)
 
 
-def explore(body, bound=None, max_runs=None, cost=None):
+def explore(body, bound=None, max_runs=None, cost=None, root=None, root_only_after=None):
     """
     Yield (choices, deviations, observation) for every execution.
 
@@ -51,7 +51,7 @@ def explore(body, bound=None, max_runs=None, cost=None):
     point with that label (default 1 for every non-default answer).
     """
     runs = 0
-    stack = [((), 0)]
+    stack = [((), 0)] if root is None else [(tuple(root), sum(1 for c in root if c))]
     while stack:
         prefix, devs = stack.pop()
         ch = Chooser(prefix)
